@@ -217,6 +217,15 @@ fn format_timestamp_function(
         Utc,
     };
 
+    // An invalid format string makes chrono's Display impl fail, which panics in to_string()
+    if chrono::format::StrftimeItems::new(chrono_format)
+        .any(|item| matches!(item, chrono::format::Item::Error))
+    {
+        return Err(tera::Error::msg(format!(
+            "Invalid timestamp format: '{format}'"
+        )));
+    }
+
     let dt = DateTime::from_timestamp(timestamp as i64, 0)
         .ok_or_else(|| tera::Error::msg("Invalid timestamp"))?
         .with_timezone(&Utc);
